@@ -44,7 +44,7 @@ def run_phases(
         completed = 0
         partial: Optional[int] = None
         t0 = time.time()
-        before = total.get("states")
+        before = total.get("states") + total.get("evaluations")
         for depth in range(ph.get("from_depth", 1), ph["depth"] + 1):
             if time.time() > deadline:
                 all_complete = False
@@ -72,7 +72,7 @@ def run_phases(
                 "planned_depth": ph["depth"],
                 "completed_depth": completed,
                 "partial_depth": partial,
-                "executions": total.get("states") - before,
+                "executions": total.get("states") + total.get("evaluations") - before,
                 "wall_s": round(time.time() - t0, 1),
             }
         )
@@ -117,3 +117,45 @@ def generic_worker(task: Tuple[Any, ...]) -> Stats:
                     out = C.Outcome(None, exc, input_data)
                 mod.judge(st, h2, specs, sch, out, label)
     return st
+
+
+def _to_tuple(x: Any) -> Any:
+    if isinstance(x, list):
+        return tuple(_to_tuple(i) for i in x)
+    return x
+
+
+def replay_compute(modname: str, path: str) -> int:
+    """Re-execute one recorded compute-seam case without the explorer and judge it again."""
+    import json
+    from importlib import import_module
+
+    from rp2verif.seams import compute as C
+
+    mod = import_module(modname)
+    with open(path, encoding="utf-8") as f:
+        payload = json.load(f)
+    hist = _to_tuple(payload["hist"])
+    specs = payload["specs"]
+    schedule = [tuple(x) for x in payload["schedule"]]
+    cfg = C.configuration("us", **getattr(mod, "CFG_KW", {"allow_negative_balances": True}))
+    verdicts = []
+    for _ in range(2):
+        st = Stats()
+        try:
+            input_data = C.build_input(cfg, specs)
+            computed = C.compute_tax(cfg, C.engine(schedule), input_data)
+            out = C.Outcome(computed, None, input_data)
+        except Exception as exc:  # pylint: disable=broad-except
+            out = C.Outcome(None, exc, None)
+        mod.judge(st, hist, specs, schedule, out, payload.get("deviation", ""))
+        verdicts.append([v["signature"] for v in st.violations])
+    if verdicts[0] != verdicts[1]:
+        print("replay: two executions of the same case disagree - harness nondeterminism")
+        return 2
+    if verdicts[0]:
+        print(f"VIOLATION property={mod.PROP} replay={path}")
+        print(f"  signature: {verdicts[0][0]}")
+        return 1
+    print(f"replay: {path}: property {mod.PROP} holds on this case")
+    return 0
